@@ -26,6 +26,7 @@ import (
 	"github.com/gardenbed/emerge/zz_verif/gen"
 	"github.com/gardenbed/emerge/zz_verif/simrt"
 	"github.com/gardenbed/emerge/zz_verif/simsched"
+	"github.com/gardenbed/emerge/zz_verif/simsched/simsync"
 	simctl "github.com/moorara/algo/zz_simctl"
 )
 
@@ -683,14 +684,37 @@ func plantGuarded() {
 	simsched.Yield(-4)
 }
 
+var plantedLocked int
+var plantedLock simsync.Mutex
+
+// plantLocked holds a mutex of the simulator's sync stand-in across two scheduling points: the other
+// worker finds it taken, polls (YieldBlocked) and must neither deadlock the simulation nor be
+// reported as racing.
+func plantLocked() {
+	simsched.Yield(-5)
+	plantedLock.Lock()
+	simsched.Yield(-6)
+	plantedLocked++
+	simsched.Yield(-7)
+	plantedLock.Unlock()
+}
+
 func (e Engine) selfTest(res *simrt.Result) *simrt.Result {
 	plantedMu = make(chan struct{}, 1)
 	before := e.raceLogSize()
 	alt := func(runnable []int, last, step, site int) int { return runnable[step%len(runnable)] }
 	simsched.Run([]func(){plantGuarded, plantGuarded}, alt, 1000)
+	simsched.ResetReach()
+	if _, ok := simsched.Run([]func(){plantLocked, plantLocked, plantLocked}, alt, 1000); !ok || plantedLocked != 3 {
+		panic("monitor self-test: workers contending for a mutex did not all finish (harness bug)")
+	}
+	if simsched.BlockedPolls == 0 {
+		panic("monitor self-test: the contended mutex was never found taken - the polling path was not exercised (harness bug)")
+	}
+	res.Count("monitor_selftest_blocked_polls", simsched.BlockedPolls)
 	if e.raceLogSize() != before {
 		b, _ := os.ReadFile(e.raceLogPath())
-		panic("monitor self-test: a channel-ordered counter was reported as a race (harness bug):\n" + string(b[before:]))
+		panic("monitor self-test: a channel-ordered or mutex-protected counter was reported as a race (harness bug):\n" + string(b[before:]))
 	}
 	simsched.Run([]func(){plantRacy, plantRacy}, alt, 1000)
 	time.Sleep(50 * time.Millisecond)
@@ -892,6 +916,7 @@ func (e Engine) Run(t *simrt.Tape, c simrt.Case, x *simrt.Ctx) *simrt.Result {
 			}
 		}
 		res.Count("context_switches", simsched.Switches)
+		res.Count("blocked_polls_on_locks", simsched.BlockedPolls)
 		res.Count("yield_steps", simsched.Steps)
 		for pr := range simsched.Adjacent {
 			res.Key("adjacent", pr[0], pr[1])
